@@ -72,6 +72,7 @@ type Exec struct {
 	openFindings map[string]bool
 	specErrs   int
 	retCount   map[string]int
+	probes     map[string]map[string]Val
 }
 
 func newExec(p *Program, sp *Specs) *Exec {
@@ -80,7 +81,7 @@ func newExec(p *Program, sp *Specs) *Exec {
 		used: map[string]bool{}, maxPaths: 6000, tids: map[string]int{}, instrOrd: map[ssa.Instruction]int{},
 		covers: map[string]bool{}, known: map[string]Val{}, globals: map[string]bool{}, sliceVals: map[string][]Val{},
 		cellVals: map[string]Val{}, typeCache: map[string]types.Type{}, modCache: map[*ssa.Function]*modSet{},
-		uncovered: map[string]bool{}, closeSites: map[string]bool{}, retCount: map[string]int{}}
+		uncovered: map[string]bool{}, closeSites: map[string]bool{}, retCount: map[string]int{}, probes: map[string]map[string]Val{}}
 }
 
 func (ex *Exec) unsupported(format string, a ...interface{}) {
@@ -253,6 +254,10 @@ func (ex *Exec) load(st *State, p Val) Val {
 	t := st.read(p.Arr, so, p.T)
 	v := ex.mkVal(el, t)
 	v.Origin = p.Arr
+	v.OriginRef = p.T
+	if strings.HasPrefix(p.Arr, "global.") {
+		ex.globalFacts(st, p.T, t, el)
+	}
 	if v.S == "Int" && (isRefLike(el)) {
 		// cannot be an object allocated later on this path
 		t2 := st.bind("ld", "Int", t)
@@ -1008,4 +1013,17 @@ func fieldName(ptrT types.Type, i int) string {
 
 func mapKey(mt *types.Map) string {
 	return smtSym(types.TypeString(mt, func(p *types.Package) string { return p.Name() }))
+}
+
+// globalFacts: what is assumed of package-level variables of dependencies: error sentinels
+// (io.EOF, context.Canceled, ...) are non-nil, pairwise distinct, never reassigned, not status errors.
+func (ex *Exec) globalFacts(st *State, addr, val string, t types.Type) {
+	if !strings.HasPrefix(addr, "g.") {
+		return
+	}
+	if types.Identical(t, types.Universe.Lookup("error").Type()) {
+		id := hashStr(addr)
+		st.assume("(and (distinct " + val + " 0) (isSentinel " + val + ") (not (isStatus " + val + ")) (= (sentinelId " + val + ") " + fmt.Sprint(id) + "))")
+		ex.use("assumed-global:" + addr + " is an immutable non-nil sentinel error")
+	}
 }
